@@ -132,8 +132,13 @@ func (dist *GParetoDistribution) LogCdf(r Scalar, x ConstScalar) error {
     }
   } else {
     // xi < 0
-    if x.GetFloat64() < dist.Mu.GetFloat64() || x.GetFloat64() > dist.Mu.GetFloat64() - dist.Sigma.GetFloat64()/dist.Xi.GetFloat64() {
+    if x.GetFloat64() < dist.Mu.GetFloat64() {
       r.SetFloat64(math.Inf(-1))
+      return nil
+    }
+    // beyond the upper end of the support
+    if x.GetFloat64() > dist.Mu.GetFloat64() - dist.Sigma.GetFloat64()/dist.Xi.GetFloat64() {
+      r.SetFloat64(0.0)
       return nil
     }
   }
